@@ -145,11 +145,24 @@ def h_history_plan(env, version):
         vr = env.zeros(r.shape)
         vf = p.eval_vxc_full(v.copy(), vr, dfeat, r.copy(), spin=spin)
         return list(np.asarray(vf, dtype=object if env.sym else float).ravel()) + list(np.asarray(vr, dtype=object if env.sym else float).ravel())
-    # reference: fresh object, spin 0 only
+    # references: one fresh object per spin
     pref, _ = c01_l2.make_plan(env, version, "MGGA", "one", 2, "gq")
     feat0, d0 = c01_l2.run_fwd(pref, f, rho, spin=0)
     ref = pot(pref, d0, rho, 0)
-    # history: spin 0 forward, spin 1 forward with other data, spin 0 forward again (repeat), then both potentials
+    pref1, _ = c01_l2.make_plan(env, version, "MGGA", "one", 2, "gq")
+    feat1, d1 = c01_l2.run_fwd(pref1, f2, rho2, spin=1)
+    ref1 = pot(pref1, d1, rho2, 1)
+    # history A (the order nr_uks_nldf uses): both forwards, then both potentials
+    planA, _ = c01_l2.make_plan(env, version, "MGGA", "one", 2, "gq")
+    _, dA0 = c01_l2.run_fwd(planA, f, rho, spin=0)
+    _, dA1 = c01_l2.run_fwd(planA, f2, rho2, spin=1)
+    gotA0 = pot(planA, dA0, rho, 0)
+    gotA1 = pot(planA, dA1, rho2, 1)
+    for k, (a, b) in enumerate(zip(gotA0, ref)):
+        env.equal("spin0_potential_after_both_forwards_%d" % k, a, b)
+    for k, (a, b) in enumerate(zip(gotA1, ref1)):
+        env.equal("spin1_potential_after_both_forwards_%d" % k, a, b)
+    # history B: spin 0 forward, spin 1 forward with other data, spin 0 forward again (repeat), then both potentials
     fa, da = c01_l2.run_fwd(plan, f, rho, spin=0)
     fb, db = c01_l2.run_fwd(plan, f2, rho2, spin=1)
     fa2, da2 = c01_l2.run_fwd(plan, f, rho, spin=0)
@@ -159,9 +172,12 @@ def h_history_plan(env, version):
     for k in range(s.nfeat):
         env.equal("repeat_forward_feat%d" % k, fa2[k, 0], fa[k, 0])
         env.equal("fresh_vs_used_feat%d" % k, fa[k, 0], feat0[k, 0])
+        env.equal("spin1_fresh_vs_used_feat%d" % k, fb[k, 0], feat1[k, 0])
     for k, (a, b, c) in enumerate(zip(got, ref, got_again)):
         env.equal("potential_after_interleaving_%d" % k, a, b)
         env.equal("repeated_potential_call_%d" % k, c, b)
+    for k, (a, b) in enumerate(zip(got1, ref1)):
+        env.equal("spin1_potential_after_interleaving_%d" % k, a, b)
 
 
 def h_history_kernel(env, cls):
